@@ -118,3 +118,91 @@ theorem commit_phase_events {s s' : Shared} {t : Tid} {l l' : Loc} {ch : Choice}
     (repeat' split at h) <;> simp at h <;> obtain ⟨_, _, rfl⟩ := h <;> simp
 
 end NodisVerif.Proofs.TxProg
+
+namespace NodisVerif.Proofs.TxProg
+open NodisVerif.Proto (Key Rec Mode Ev Hold TxSt PState assoc erase put Tx)
+open NodisVerif.TxProg
+open NodisVerif.Proofs.Proto
+
+/-! ## `store.mu` is never part of a deadlock -/
+
+theorem fst_le_sum {β : Type} (l : List (Nat × β)) : ∀ q ∈ l, q.1 ≤ (l.map (·.1)).sum := by
+  induction l with
+  | nil => intro q hq; cases hq
+  | cons x l ih =>
+    intro q hq
+    simp only [List.map_cons, List.sum_cons]
+    rcases List.mem_cons.1 hq with rfl | hq
+    · omega
+    · have := ih q hq; omega
+
+/-- `newMetadata()` can always return a new object -/
+theorem exists_fresh (names : List (Rec × Key)) : ∃ r, assoc names r = none := by
+  refine ⟨(names.map (·.1)).sum + 1, ?_⟩
+  cases h : assoc names ((names.map (·.1)).sum + 1) with
+  | none => rfl
+  | some k =>
+    have := fst_le_sum names _ (mem_of_assoc h)
+    exact absurd this (Nat.not_succ_le_self _)
+
+/-- the pcs at which a thread asks for `store.mu` -/
+def smuAcquire : Pc → Bool
+  | .a1 | .a10 | .g4 | .a4 | .n2 | .d1 | .c8 | .g7 => true
+  | _ => false
+
+/-- whoever owns `store.mu` (as writer or as a reader) is an active thread inside one of its sections, and its next
+    transition is enabled whenever the scheduler offers a fresh object: inside a `store.mu` section the code waits
+    for nothing -/
+theorem smu_holder_can_move {c : Cfg} {p : PState} (hst : Strong c p) {u : Tid}
+    (hown : c.sh.smu.writer = some u ∨ u ∈ c.sh.smu.readers) (ch : Choice)
+    (hfresh : assoc c.sh.names ch.fresh = none) :
+    (c.loc u).pc ≠ .init ∧ (TxProg.step c u ch).isSome = true := by
+  have hsec : inW (c.loc u).pc = true ∨ inR (c.loc u).pc = true := by
+    rcases hown with h | h
+    · exact Or.inl ((hst.conv u).1 h)
+    · exact Or.inr ((hst.conv u).2 h)
+  have hne : (c.loc u).pc ≠ .init := by
+    intro h; rw [h] at hsec; simp [inW, inR] at hsec
+  refine ⟨hne, ?_⟩
+  by_cases hmb : mayBlock (c.loc u).pc = false
+  · exact enabled_unless_mayBlock c u ch hmb
+  · have hmb : mayBlock (c.loc u).pc = true := by simpa using hmb
+    cases hpc : (c.loc u).pc <;> simp [hpc, mayBlock] at hmb <;> simp [hpc, inW, inR] at hsec
+    · -- a5
+      unfold TxProg.step
+      simp only [tstep, hpc]
+      cases c.sh.lookup (c.loc u).key <;> simp [hfresh]
+    · exact delKey_not_stuck hst hpc ch
+    · -- d3
+      unfold TxProg.step
+      simp [tstep, hpc, hfresh]
+
+/-- a thread that is blocked on `store.mu` is blocked by another thread that can move: `store.mu` never closes a
+    cycle of waiting threads -/
+theorem blocked_on_smu_by_a_mover {c : Cfg} {p : PState} (hst : Strong c p) {t : Tid} {ch : Choice}
+    (hpc : smuAcquire (c.loc t).pc = true) (hblocked : TxProg.step c t ch = none) :
+    ∃ u, u ≠ t ∧ (c.loc u).pc ≠ .init ∧
+      ∀ ch', assoc c.sh.names ch'.fresh = none → (TxProg.step c u ch').isSome = true := by
+  have hnot : inW (c.loc t).pc = false ∧ inR (c.loc t).pc = false := by
+    cases hq : (c.loc t).pc <;> simp [hq, smuAcquire] at hpc <;> simp [inW, inR]
+  have howner : ∃ u, c.sh.smu.writer = some u ∨ u ∈ c.sh.smu.readers := by
+    cases hw : c.sh.smu.writer with
+    | some u => exact ⟨u, Or.inl rfl⟩
+    | none =>
+      cases hr : c.sh.smu.readers with
+      | cons u l => exact ⟨u, Or.inr (by simp)⟩
+      | nil =>
+        exfalso
+        unfold TxProg.step at hblocked
+        cases hq : (c.loc t).pc <;> simp [hq, smuAcquire] at hpc <;>
+          simp [tstep, hq, Mu.canLock, Mu.canRLock, hw, hr] at hblocked
+  obtain ⟨u, hu⟩ := howner
+  obtain ⟨r, hr⟩ := exists_fresh c.sh.names
+  refine ⟨u, ?_, (smu_holder_can_move hst hu { fresh := r } hr).1,
+    fun ch' hf => (smu_holder_can_move hst hu ch' hf).2⟩
+  intro e; subst e
+  rcases hu with h | h
+  · have := (hst.conv u).1 h; rw [hnot.1] at this; cases this
+  · have := (hst.conv u).2 h; rw [hnot.2] at this; cases this
+
+end NodisVerif.Proofs.TxProg
